@@ -33,7 +33,7 @@ MOD = "checks.c19"
 _NOVALS = np.zeros(0)
 UNKNOWN = "zz"
 SINKS = ("k1", "k2")
-SRCS = ("s1",)
+SRCS = ("s1", "s0")
 CONFIGS = {          # registration order = tuple order
     "dbl2": {"eps": ("a", "b"), "udp": ()},
     "udp2": {"eps": ("a", "u"), "udp": ("u",)},
@@ -174,7 +174,7 @@ class World:
             for (dest, x), n in sent.items():
                 if x is None:
                     continue        # a no-data receive that fans out None is the delivery clauses' business, not a rule
-                sname = x[4:] if isinstance(x, str) and x.startswith("src:") else "?%r" % (x,)
+                sname = "s0" if x == "" else (x[4:] if isinstance(x, str) and x.startswith("src:") else "?%r" % (x,))
                 srcs[(dest, sname)] += n
             for (k, x), n in sunk.items():
                 if x is not None:
